@@ -49,4 +49,34 @@ TEXT = {
   "note": "trusted: Coq kernel, extraction, harness; float division/formatting recomputed by the harness",
   "technique": "Coq proof (case analysis of the cascade) + differential correspondence with the real controllers against a live and a fault-injecting validator",
  },
+ "C01": {
+  "level": "Theorems in exact (non-wrapping) N arithmetic at the three places a transaction is judged: a block accepted by verify_block, every new block of a candidate accepted by verify, a transaction accepted by the pool (valued at the next block time), and every transaction kept by production pay out at most the value of the outputs they consume minus the minimal fee, and the block's single reward is at most the sum of what its transactions leave over (plus the genesis amount in a first block). The pinned tree's wrapping sum is refuted by a concrete witness (fixed in /repo). Tied to the code by histories on the real node with a big-integer monitor on every served chain.",
+  "ref": "DESIGN.md section 4, C01",
+  "note": "trusted: Coq kernel, extraction, harness; Utxo.Value, ECDSA, address derivation are oracles; the bound is stated against the registry state the code consults at each of the three places (C07 identifies that state with the replay of the chain); the global 'supply' corollary is not proved",
+  "technique": "Coq proof (exact-arithmetic lemmas about CalculateFee, inversion of verifyBlock / admission / production loop) + differential correspondence and big-integer monitor on operation histories",
+ },
+ "C03": {
+  "level": "Theorems at the three places a transaction is judged (admission, production, adopted block and every new block of an adopted chain): every input carries a signature accepted for its output reference under its key, and the key's address is the owner of the output it consumes; conversely an unsigned input or a wrong owner is refused at each of the three places.",
+  "ref": "DESIGN.md section 4, C03",
+  "note": "ECDSA and address derivation are oracles (what ecdsa.Verify answers is recorded, not proved); blocks not re-verified because their hash equals the host's block rely on SHA-256 collision resistance",
+  "technique": "Coq proof (inversion of the three acceptance functions) + differential correspondence with single-field corruptions of valid inputs",
+ },
+ "C04": {
+  "level": "Theorems over all histories (induction over reach): every chain a node holds satisfies, for each block after the first, link to the predecessor's hash, timestamp = predecessor + interval, exactly one reward, every ordinary transaction dated within [predecessor, block]; a replaced chain holds no new non-first block dated after the adopting node's clock. The edge the code leaves open (a tip dated 0 is taken for an empty chain) is exhibited as a refutation and excluded by hypothesis.",
+  "ref": "DESIGN.md section 4, C04",
+  "note": "hypotheses: fee >= 1, interval >= 0, injective H (SHA-256 collision resistance), aligned ticks, no tip dated 0; trusted: Coq kernel, extraction, harness",
+  "technique": "Coq proof (invariant by induction over operation histories, inversion of verify/validate) + differential correspondence with one-rule-broken candidate chains",
+ },
+ "C07": {
+  "level": "Theorem over all histories of production ticks, submissions, sync rounds against arbitrary neighbors and registry refreshes: the node's output registry is exactly the replay, from an empty state, of its chain minus the last block, and its registered set equals the replayed one; hence Utxos(a) and IsRegistered(a) agree for every address. Tied to the code by comparing the complete observable state with the model after every operation and by a model-free replay monitor.",
+  "ref": "DESIGN.md section 4, C07",
+  "note": "operation granularity; no neighbor is literally called \"host\"; trusted: Coq kernel, extraction, harness, oracles",
+  "technique": "Coq proof (invariant by induction over reach, replay composition, unreachability of the failing-commit branch) + differential correspondence + replay monitor",
+ },
+ "C12": {
+  "level": "Theorems: each operation leaves the chain unchanged, appends one block, or (sync round) either adopts a fully verified chain in a full re-sync or keeps everything below the tip untouched (prefix preservation); every reachable chain is hash-linked. In-place mutation of chained blocks (the pinned tree's aliasing defect, fixed) is outside immutable model values and is caught by the correspondence on block hashes and by re-observing every block after every operation.",
+  "ref": "DESIGN.md section 4, C12",
+  "note": "Go slice aliasing is not modelled (caught by correspondence/monitor, not by a theorem); trusted: Coq kernel, extraction, harness",
+  "technique": "Coq proof (case analysis of step, invariant chain_linked over reach) + differential correspondence and hash re-observation monitor",
+ },
 }
